@@ -181,6 +181,64 @@ def scaled_tok(x, d):
     return "-0" if n == 0 and math.copysign(1.0, x) < 0 else str(n)
 
 
+def shortest(x):
+    """(neg, digits, e10): the shortest decimal digits * 10^e10 that float() rounds to |x| (the closest to |x| among the
+    shortest) - what float.__repr__ promises to print - found by exact rational arithmetic, independently of repr();
+    digits has no trailing zero; 0.0 -> (False, 0, 0), -0.0 -> (True, 0, 0)"""
+    import math
+    neg = math.copysign(1.0, x) < 0
+    a = abs(x)
+    if a == 0:
+        return neg, 0, 0
+    X = Fraction(a)
+    e = len(str(X.numerator)) - len(str(X.denominator))
+    if Fraction(10) ** e > X:
+        e -= 1
+    while Fraction(10) ** (e + 1) <= X:
+        e += 1
+    for p in range(1, 18):
+        sc = Fraction(10) ** (e - p + 1)
+        m = X / sc
+        lo = m.numerator // m.denominator
+        best = None
+        for c in (lo, lo + 1):
+            if c <= 0:
+                continue
+            v = Fraction(c) * sc
+            try:
+                fv = float(v)
+            except OverflowError:
+                fv = float("inf")
+            if fv == a:
+                dist = abs(v - X)
+                if best is None or dist < best[0] or (dist == best[0] and c % 2 == 0):
+                    best = (dist, c)
+        if best is not None:
+            c, e10 = best[1], e - p + 1
+            while c % 10 == 0:
+                c //= 10
+                e10 += 1
+            return neg, c, e10
+    raise AssertionError("no 17-digit decimal rounds to %r" % x)
+
+
+def snum_common(vals, q):
+    """the floats `vals` of a case as protocol tokens on a common decimal lattice: (d, tokens) with value = +-mag / 10^d.
+    q = k: vals are integers on the 10^-k lattice (at most 15 significant digits: the decimal is the shortest repr);
+    q = None: vals are arbitrary finite floats, given by their shortest round-trip decimals"""
+    if q is not None:
+        return q, [str(int(v)) for v in vals]
+    sh = [shortest(float(v)) for v in vals]
+    d = max([0] + [-e10 for _, _, e10 in sh])
+    return d, [("-" if neg else "") + str(c * 10 ** (e10 + d)) for neg, c, e10 in sh]
+
+
+# floats at the places where str(float) changes its layout
+SWITCH_FLOATS = [1e-4, 0.00009999999999999999, 1e-5, 1.9290316747799796e-05, -4.262146191535976e-12, 5e-324, 2.2250738585072014e-308,
+                 1e16, 9999999999999998.0, 1.0000000000000002e16, 1.5e22, 1e22, 1e23, 123456789012345680.0, 1.7976931348623157e308,
+                 0.0, -0.0, 5.0, -1.0, 100.0, 1e15, 0.1, 0.30000000000000004, 2.0 ** 53, 2.0 ** -20]
+
+
 class P(Prop):
     id = "C13"
     design_ref = "DESIGN.md section 5, C13"
@@ -312,6 +370,40 @@ class P(Prop):
         return rng.choice([rng.uniform(-1e6, 1e6), rng.uniform(-100, 100), rng.uniform(-1, 1), rng.uniform(-2e-3, 2e-3),
                            rng.randrange(-1000, 1000) + rng.choice([0.0005, 0.0625, 0.5, 0.125, 0.4995, 0.9995, 0.99951])])
 
+    def rand_wide(self, rng, srid, axis, cap=None):
+        """a float from the whole range of magnitudes and shapes str(float) renders differently: below 1e-4 and from 1e16
+        (exponent notation), negative zero, integer-valued, 17 significant digits, the values next to the two switches,
+        the residues a projection leaves on a point due east / north of its base (1.9e-05, -4.3e-12); geographic
+        longitudes / latitudes stay inside their range (a meridian or a parallel within 1e-4 degree of zero); `cap` bounds the
+        magnitude where the library squares coordinates (edge lengths of a network: x ** 2 raises OverflowError beyond 1e154)"""
+        geo = srid == "GEO" and axis < 2
+        lim = [180.0, 90.0][axis] if geo else None
+        sgn = rng.choice([1.0, -1.0])
+        r = rng.random()
+        if r < 0.30:        # exponent notation, small side
+            x = rng.choice([rng.uniform(1, 10) * 10.0 ** -rng.randrange(5, 25), rng.uniform(-1, 1) * 1e-4,
+                            float(Fraction(rng.randrange(1, 10 ** rng.choice([1, 2, 5])), 10 ** rng.randrange(5, 40))),
+                            rng.uniform(1, 10) * 10.0 ** -rng.randrange(25, 320), 5e-324 * rng.randrange(1, 1000)])
+        elif r < 0.45 and not geo:      # exponent notation, large side
+            x = rng.choice([rng.uniform(1, 10) * 10.0 ** rng.randrange(16, 30), float(10 ** rng.randrange(16, 40)),
+                            float(rng.randrange(10 ** 16, 10 ** 18)), rng.uniform(1, 10) * 10.0 ** rng.randrange(30, 308)])
+        elif r < 0.60:
+            x = rng.choice(SWITCH_FLOATS)
+            if geo and abs(x) > lim:
+                x = rng.choice([0.0, -0.0, 1e-5, 5.0])
+        elif r < 0.72:      # integer-valued
+            x = float(rng.randrange(0, 10 ** rng.choice([1, 3, 6, 15]))) if not geo else float(rng.randrange(0, int(lim) + 1))
+        elif r < 0.80:
+            x = 0.0
+        else:               # many digits
+            x = rng.uniform(0, lim) if geo else rng.choice([rng.uniform(0, 1e6), rng.uniform(0, 100), rng.uniform(0, 1), rng.uniform(0, 1e15)])
+        x = sgn * x
+        if geo:
+            x = max(-lim, min(lim, x))
+        if cap is not None and abs(x) > cap:
+            x = sgn * rng.choice([1e16, 1.5e22, cap, rng.uniform(1, 10) * 1e17])
+        return x
+
     def rand_rows(self, rng, srid, n=None, q="lat"):
         n = n or rng.choice([1, 1, 2, 3, 4, 6])
         if q == "lat":
@@ -319,7 +411,7 @@ class P(Prop):
         rows = []
         for _ in range(n):
             if q is None:
-                c = [self.rand_float(rng, srid, a) for a in range(3)]
+                c = [self.rand_float(rng, srid, a) if rng.random() < 0.7 else self.rand_wide(rng, srid, a) for a in range(3)]
             else:
                 c = [self.rand_coord(rng, srid, a, q) for a in range(3)]
             rows.append(c + self.rand_stamp(rng))
@@ -332,8 +424,10 @@ class P(Prop):
         if r < 0.45:
             d = rng.choice([1, 2, 3, 6])
             n = rng.choice([rng.randrange(-10 ** 7, 10 ** 7), 5, -25, 10 ** d, 123456])
-            if n != 0 and abs(n) < 10 ** (d - 4):      # repr() stays positional
-                n = 10 ** d + n
+            if rng.random() < 0.25:     # str(float) in exponent notation: below 1e-4, from 1e16
+                d, n = rng.choice([(rng.randrange(5, 30), rng.choice([1, 5, -25, 12345, rng.randrange(-10 ** 6, 10 ** 6)])),
+                                   (0, rng.choice([1, -15, 12345, 25]) * 10 ** rng.randrange(16, 30)),
+                                   (rng.randrange(1, 4), rng.randrange(-10 ** 6, 10 ** 6) * 10 ** rng.randrange(16, 24))])
             return ["D", n, d]
         if r < 0.85:
             return ["S", rng.choice(AF_STRS)]
@@ -361,19 +455,20 @@ class P(Prop):
         map data delivers them), so several edges share a node id while their end vertices differ"""
         srid = srid or rng.choice(["ENU", "ENU", "GEO"])     # (the network reader refuses ECEF: 2D lengths are not defined on it)
         q = 8 if srid == "GEO" else 3
+        wide = rng.random() < 0.25      # vertices from the whole float range (q = None): str(float) in every layout
+        if wide:
+            q = None
         nn = rng.choice([2, 3, 4])
         names = []
         while len(names) < nn:
             s = self.rand_ident(rng)
             if s not in names:
                 names.append(s)
-        ok = lambda p: all(v == 0 or abs(v) >= 10 ** (q - 4) for v in p)    # repr() stays positional
 
         def pt():
-            while True:
-                p = [self.rand_coord(rng, srid, 0, q), self.rand_coord(rng, srid, 1, q)]
-                if ok(p):
-                    return p
+            if wide:
+                return [self.rand_wide(rng, srid, 0, cap=1e60), self.rand_wide(rng, srid, 1, cap=1e60)]
+            return [self.rand_coord(rng, srid, 0, q), self.rand_coord(rng, srid, 1, q)]
         pos = {s: pt() for s in names}
         loose = (rng.random() < 0.5) if loose is None else loose
 
@@ -382,10 +477,14 @@ class P(Prop):
             if not loose or rng.random() < 0.4:
                 return pos[s]
             for _ in range(20):
-                p = [pos[s][0] + rng.choice([0, 1, -1, 7, -250, 400, 1000, -12345]), pos[s][1] + rng.choice([0, 1, -1, -7, 250, -400, 500, 54321])]
+                if wide:
+                    p = [pos[s][0] + rng.choice([0.0, 1e-5, -2.5e-7, 0.25, -3.0]), pos[s][1] + rng.choice([0.0, -1e-5, 1e-12, 0.5, 7.0])]
+                else:
+                    p = [pos[s][0] + rng.choice([0, 1, -1, 7, -250, 400, 1000, -12345]), pos[s][1] + rng.choice([0, 1, -1, -7, 250, -400, 500, 54321])]
                 if srid == "GEO":
-                    p = [max(-180 * 10 ** q, min(180 * 10 ** q, p[0])), max(-90 * 10 ** q, min(90 * 10 ** q, p[1]))]
-                if ok(p) and p != pos[s]:
+                    u = 1 if wide else 10 ** q
+                    p = [max(-180 * u, min(180 * u, p[0])), max(-90 * u, min(90 * u, p[1]))]
+                if p != pos[s]:
                     return p
             return pos[s]
         ne = rng.choice([1, 2, 3, 4, 5])
@@ -424,14 +523,7 @@ class P(Prop):
         if kind == "net":
             return self.net_case(rng, sep=rng.choice([",", ";"]), h=1)
         if kind == "wkt":
-            srid = rng.choice(["ENU", "GEO", "ECEF"])
-            q = 8 if srid == "GEO" else 3
-            pts = []
-            while len(pts) < 2:
-                p = [self.rand_coord(rng, srid, 0, q), self.rand_coord(rng, srid, 1, q)]
-                if all(v == 0 or abs(v) >= 10 ** (q - 4) for v in p):
-                    pts.append(p)
-            return {"kind": "wkt", "srid": srid, "q": q, "pts": pts}
+            return self.wkt_case(rng, n=2)
         if kind == "tz":
             return {"kind": "tz", "t": self.rand_stamp(rng)}
         if kind == "time":
@@ -680,20 +772,29 @@ class P(Prop):
             c["posdir"] = -1
             out.append(c)
         # --- WKT
-        for _ in range(1000 if not thorough else 20000):
-            srid = rng.choice(["ENU", "GEO", "ECEF"])
-            q = 8 if srid == "GEO" else 3
-            n = rng.choice([1, 2, 3, 5, 8])
-            pts = []
-            while len(pts) < n:
-                p = [self.rand_coord(rng, srid, 0, q), self.rand_coord(rng, srid, 1, q)]
-                if all(v == 0 or abs(v) >= 10 ** (q - 4) for v in p):
-                    pts.append(p)
-            out.append({"kind": "wkt", "srid": srid, "q": q, "pts": pts})
+        for x in SWITCH_FLOATS:         # every layout of str(float), as E and as N, in the three coordinate systems
+            for srid in ("ENU", "GEO", "ECEF"):
+                if srid != "GEO" or abs(x) <= 90:
+                    out.append({"kind": "wkt", "srid": srid, "q": None, "pts": [[x, 12.5], [3.25, x]]})
+        for _ in range(1500 if not thorough else 20000):
+            out.append(self.wkt_case(rng))
         # WKT texts as other tools write them, parsed by TrackReader.parseWkt (reader only): polygons, z values, blanks, case
         for _ in range(400 if not thorough else 4000):
             out.append(self.wktp_case(rng))
         return out
+
+    def wkt_case(self, rng, n=None):
+        """a track exported by toWKT and parsed back: vertices on the 1 mm / 1e-8 degree lattice (its small values, 1e-08 ...,
+        are printed in exponent notation), or any finite floats (q = None)"""
+        srid = rng.choice(["ENU", "GEO", "ECEF"])
+        n = n or rng.choice([1, 2, 3, 5, 8])
+        if rng.random() < 0.5:
+            q = 8 if srid == "GEO" else 3
+            pts = [[self.rand_coord(rng, srid, 0, q), self.rand_coord(rng, srid, 1, q)] for _ in range(n)]
+        else:
+            q = None
+            pts = [[self.rand_wide(rng, srid, 0), self.rand_wide(rng, srid, 1)] for _ in range(n)]
+        return {"kind": "wkt", "srid": srid, "q": q, "pts": pts}
 
     def wktp_case(self, rng):
         from fractions import Fraction as F
@@ -701,6 +802,9 @@ class P(Prop):
 
         def num():
             v = rng.choice([rng.randrange(-10 ** 6, 10 ** 6), 0, 5, -25, 1000])
+            if rng.random() < 0.2:      # exponent forms as other tools (and str(float)) write them, well formed or not
+                return rng.choice(["1e-05", "2.5E+3", "1e5", "-3.25e-7", "1.9290316747799796e-05", "5e-324", "1E16", ".5e1", "5.e-1", "+1e+2",
+                                   "1e", "e5", "1e+", "1.5e2.5", "1e-", "1ee5", "1.e", "-e1"])
             return repr(float(F(v, 10 ** q))) if rng.random() < 0.8 else str(v // 10 ** q)
         n = rng.choice([1, 2, 3, 4, 6])
         vs = [" ".join(num() for _ in range(rng.choice([2, 2, 2, 3, 1, 4]))) for _ in range(n)]
@@ -736,6 +840,10 @@ class P(Prop):
             t["extensions"] = "af_names" in case
         if k == "time":
             t["fmt"] = case["pfmt"]
+        if k == "wkt":
+            t["srid"] = case["srid"]
+            t["floats"] = case["q"] is None
+            t["exponent_notation"] = any(v != 0 and (abs(cval(v, case["q"])) < 1e-4 or abs(cval(v, case["q"])) >= 1e16) for p in case["pts"] for v in p)
         if k == "session":
             t["ops"] = "-".join(o["kind"] for o in case["ops"])
             t["fmt"] = case["fmt"]
@@ -1248,11 +1356,14 @@ class P(Prop):
             rows = ";".join(self.row_tok(r, case["q"], 8) for r in case["rows"])
             return ["C13.gpx %d %s %s %s" % (case["srid"] == "GEO", hx(case["rfmt"]), hx(str(case["tid"])), rows)]
         if k == "net":
+            d, toks = snum_common([v for e in case["edges"] for p in e["geom"] for v in p[:2]], case["q"])
+            it = iter(toks)
             es = ";".join("%s,%s,%s,%d,%s" % (hx(e["id"]), hx(e["src"]), hx(e["tgt"]), e["orient"],
-                                              "|".join("%d:%d" % (p[0], p[1]) for p in e["geom"])) for e in case["edges"])
-            return ["C13.net %d %d %d %d %d %s" % (ord(case["sep"]), case["h"], case["hdrR"], case["q"], case["posdir"], es)]
+                                              "|".join("%s:%s" % (next(it), next(it)) for p in e["geom"])) for e in case["edges"])
+            return ["C13.net %d %d %d %d %d %s" % (ord(case["sep"]), case["h"], case["hdrR"], d, case["posdir"], es)]
         if k == "wkt":
-            return ["C13.wkt %d %s" % (case["q"], "|".join("%d:%d" % (p[0], p[1]) for p in case["pts"]))]
+            d, toks = snum_common([v for p in case["pts"] for v in p[:2]], case["q"])
+            return ["C13.wkt %d %s" % (d, "|".join("%s:%s" % (toks[2 * i], toks[2 * i + 1]) for i in range(len(case["pts"]))))]
         if k == "wktp":
             return ["C13.wktparse %s" % hx(case["text"])]
 
